@@ -28,8 +28,17 @@ impl Ctx {
         let sels: Vec<(usize, usize)> = req.nth(4).list().iter().map(|p| (p.nth(0).int() as usize, p.nth(1).int() as usize)).collect();
         let cfg = Config::default().with_milestone_interval(interval).with_shrink_to_fit(shrink);
         // variant 1: the resource had another text first (TextResource::with_string twice), then gets this one
-        let replaced = req.list().len() > 5 && req.nth(5).int() == 1;
-        let mut store = if replaced {
+        // variant 2: the tuning knobs are set AFTER the resource is in the store (with_config on the
+        //            populated store): the index was built with the default interval, answers must not change
+        let variant = if req.list().len() > 5 { req.nth(5).int() } else { 0 };
+        let replaced = variant == 1;
+        let mut store = if variant == 2 {
+            AnnotationStore::default()
+                .with_id("c12")
+                .with_resource(TextResourceBuilder::new().with_id("r").with_text(text.clone()))
+                .unwrap()
+                .with_config(cfg.clone())
+        } else if replaced {
             let other: String = "x\u{e9}\u{1f600}\u{4e2d} ".chars().cycle().take(37).collect();
             let resource = TextResource::new("r", cfg.clone()).with_string(other).with_string(text.clone());
             let mut st = AnnotationStore::new(cfg).with_id("c12");
@@ -108,7 +117,9 @@ impl Ctx {
                 }
             }
         }
-        let input = l(vec![req.nth(0).clone(), req.nth(2).clone(), req.nth(3).clone(), l(model_sels)]);
+        // the model is told the interval the index was built with
+        let built_with = if variant == 2 { a(100) } else { req.nth(0).clone() };
+        let input = l(vec![built_with, req.nth(2).clone(), req.nth(3).clone(), l(model_sels)]);
         (input, outs, text.len() > n)
     }
 }
@@ -161,7 +172,7 @@ pub fn generate(out: &mut Out, tier: &str, seed: u64) {
                         text_sx(&text),
                         if with_anns { l(anns.clone()) } else { l(vec![]) },
                         l(sels.clone()),
-                        a(if (ti + shrink as usize) % 3 == 0 { 1 } else { 0 }),
+                        a(((ti + shrink as usize) % 3) as i64),
                     ]);
                     let (i, o, nt) = ctx.exec(&req);
                     out.case(&i, &o, nt, &req);
@@ -172,6 +183,6 @@ pub fn generate(out: &mut Out, tier: &str, seed: u64) {
     }
 }
 
-pub const RULE: &str = "texts of length 0..=12 (thorough 16) over an alphabet with 1-, 2-, 3- and 4-byte characters; every codepoint position 0..=len+2 and every byte offset 0..=bytes+2 on the resource, and the relative conversions + text on sub-selections (3 random ones per text; thorough: a third of all sub-ranges), each under milestone_interval in {0,1,2,3,7,100} x shrink_to_fit on/off x before/after random annotations populated the position index; the annotated ranges are probed through ResultItem<TextSelection> as well; in a third of the cases the resource had another (37-codepoint, mixed) text first and got this one by a second with_string(). One evaluation = one conversion. Non-trivial = text contains a multi-byte character; distinct = distinct (interval, text, annotations, selections) inputs.";
+pub const RULE: &str = "texts of length 0..=12 (thorough 16) over an alphabet with 1-, 2-, 3- and 4-byte characters; every codepoint position 0..=len+2 and every byte offset 0..=bytes+2 on the resource, and the relative conversions + text on sub-selections (3 random ones per text; thorough: a third of all sub-ranges), each under milestone_interval in {0,1,2,3,7,100} x shrink_to_fit on/off x before/after random annotations populated the position index; the annotated ranges are probed through ResultItem<TextSelection> as well; in a third of the cases the resource had another (37-codepoint, mixed) text first and got this one by a second with_string(); in another third the configuration is given to the store after the resource was added (with_config on the populated store). One evaluation = one conversion. Non-trivial = text contains a multi-byte character; distinct = distinct (interval, text, annotations, selections) inputs.";
 
 pub const EXHAUSTIVE: bool = false;
